@@ -439,7 +439,7 @@ func c04Enum(thorough bool) mc.Enum {
 						}
 					}
 				}
-				if plan == "none" {
+				{ // round 12: pay-once posts in every existing-plan state of the payer (a plan must not pay for them)
 					for _, total := range []int64{1, 1_000_000, 5_000_000_000} {
 						for _, exp := range []int64{14_399, 14_400, 5_256_000} {
 							for _, sh := range []bool{false, true} {
@@ -487,7 +487,7 @@ func c04Enum(thorough bool) mc.Enum {
 func init() {
 	CaseReplayers["C04/payments"] = func(r *mc.Run, c string) { r.ReplayCase(c04Enum(true), c) }
 	Props["C04"] = Prop{Level: "exploration", Run: func(r *mc.Run, tier string) {
-		r.Rules = append(r.Rules, "full product existing-plan state {none, active smaller, active larger, active with usage above the request, expired} x price feed {absent,0.24,1,0.001} x (POL,referral) ratios {(40,25),(0,0),(35,25),(60,40),(10,90),(30,25)} x bytes {0.5,1,3,5000,20000 GB} x days {1,29,30,365,366,400} x referral {none,self,other address,name of other,name of self,unregistered name,garbage} x recipient {self,other; also spelled in capitals} x payer balance {ample, price-1}; pay-once posts size {1,1e6,5e9} x expiry {<1 day,1 day,1 year} x balance; every evaluation snapshots all balances and total supply. Non-trivial = accepted purchases")
+		r.Rules = append(r.Rules, "full product existing-plan state {none, active smaller, active larger, active with usage above the request, expired} x price feed {absent,0.24,1,0.001} x (POL,referral) ratios {(40,25),(0,0),(35,25),(60,40),(10,90),(30,25)} x bytes {0.5,1,3,5000,20000 GB} x days {1,29,30,365,366,400} x referral {none,self,other address,name of other,name of self,unregistered name,garbage} x recipient {self,other; also spelled in capitals} x payer balance {ample, price-1}; pay-once posts size {1,1e6,5e9} x expiry {<1 day,1 day,1 year} x balance x every existing-plan state of the payer; every evaluation snapshots all balances and total supply. Non-trivial = accepted purchases")
 		r.Assumptions = append(r.Assumptions, "the chain's own price functions evaluated on the pre-state are the reference for 'the price the chain computes'; the 10%/5% referral discount is applied by the harness", "ratio pairs with sum <= 100")
 		dl := time.Time{}
 		r.AddEnum(c04Enum(tier == "thorough"), workers(), dl)
